@@ -758,8 +758,9 @@ def loopOrIf (s : Rebuild w) (ps : List (Rebuild w)) (sub : Rebuild w) (cond : I
     else do
       let sub := { sub with reads := sIns sub.reads cond }
       let s ← emitReadAll ps (readsSorted sub s) s
-      -- written variables that are constant are not clobbered: their pending operations are performed first
-      let s ← emitAll ps ((mKeys sub.written).filter (fun var => constant.contains var)) s
+      -- written variables that are constant are not clobbered: their pending operations are performed first,
+      -- and they count as read by this block (so that every enclosing block does the same)
+      let s ← emitReadAll ps ((mKeys sub.written).filter (fun var => constant.contains var)) s
       let clobbered := (mKeys sub.written).filter (fun var => !constant.contains var)
       let s ←
         if !loopAnal.noEffect then do
